@@ -246,3 +246,169 @@ pub fn f_keyed_max<'a>(a: S<'a, KV>) {
         .assume_ordering::<TotalOrder>(nondet!(/** observation only */))
         .embedded_output("out");
 }
+
+// ------------------------------------------------------------------ tick-scoped (C30)
+// `batch(&tick, nondet)` is the non-deterministic split the driver controls explicitly.
+
+pub type TS<'a, T> = Stream<T, Tick<P<'a>>, Bounded>;
+
+fn b1<'a, T>(a: S<'a, T>) -> (Tick<P<'a>>, TS<'a, T>) {
+    let tick = a.location().tick();
+    let ba = a.batch(&tick, nondet!(/** the driver chooses the batches */));
+    (tick, ba)
+}
+
+fn b2<'a, T, U>(a: S<'a, T>, b: S<'a, U>) -> (TS<'a, T>, TS<'a, U>) {
+    let tick = a.location().tick();
+    let ba = a.batch(&tick, nondet!(/** the driver chooses the batches */));
+    let bb = b.batch(&tick, nondet!(/** the driver chooses the batches */));
+    (ba, bb)
+}
+
+pub fn t_fold<'a>(a: S<'a, u32>) {
+    b1(a).1
+        .fold(q!(|| 0u32), q!(|acc, x| *acc = (*acc * 2 + x) % 1009))
+        .all_ticks()
+        .embedded_output("out");
+}
+
+pub fn t_reduce<'a>(a: S<'a, u32>) {
+    b1(a).1
+        .reduce(q!(|acc, x| *acc = (*acc * 3 + x) % 1009))
+        .all_ticks()
+        .embedded_output("out");
+}
+
+pub fn t_count<'a>(a: S<'a, u32>) {
+    b1(a).1.count().all_ticks().embedded_output("out");
+}
+
+pub fn t_max<'a>(a: S<'a, u32>) {
+    b1(a).1.max().all_ticks().embedded_output("out");
+}
+
+pub fn t_min<'a>(a: S<'a, u32>) {
+    b1(a).1.min().all_ticks().embedded_output("out");
+}
+
+pub fn t_first<'a>(a: S<'a, u32>) {
+    b1(a).1.first().all_ticks().embedded_output("out");
+}
+
+pub fn t_last<'a>(a: S<'a, u32>) {
+    b1(a).1.last().all_ticks().embedded_output("out");
+}
+
+pub fn t_limit<'a>(a: S<'a, u32>) {
+    b1(a).1.limit(q!(2)).all_ticks().embedded_output("out");
+}
+
+pub fn t_sort<'a>(a: S<'a, KV>) {
+    b1(a).1.sort().all_ticks().embedded_output("out");
+}
+
+pub fn t_enumerate<'a>(a: S<'a, u32>) {
+    b1(a).1.enumerate().all_ticks().embedded_output("out");
+}
+
+pub fn t_unique<'a>(a: S<'a, u32>) {
+    b1(a).1.unique().all_ticks().embedded_output("out");
+}
+
+pub fn t_chain<'a>(a: S<'a, u32>, b: S<'a, u32>) {
+    let (ba, bb) = b2(a, b);
+    ba.chain(bb.map(q!(|x| x + 100)))
+        .all_ticks()
+        .embedded_output("out");
+}
+
+pub fn t_join<'a>(a: S<'a, KV>, b: S<'a, KV>) {
+    let (ba, bb) = b2(a, b);
+    ba.join(bb)
+        .all_ticks()
+        .assume_ordering::<TotalOrder>(nondet!(/** observation only */))
+        .embedded_output("out");
+}
+
+pub fn t_cross<'a>(a: S<'a, u32>, b: S<'a, u32>) {
+    let (ba, bb) = b2(a, b);
+    ba.cross_product(bb)
+        .all_ticks()
+        .assume_ordering::<TotalOrder>(nondet!(/** observation only */))
+        .embedded_output("out");
+}
+
+pub fn t_anti_join<'a>(a: S<'a, KV>, b: S<'a, u32>) {
+    let (ba, bb) = b2(a, b);
+    ba.anti_join(bb).all_ticks().embedded_output("out");
+}
+
+pub fn t_cross_singleton<'a>(a: S<'a, u32>, b: S<'a, u32>) {
+    let (ba, bb) = b2(a, b);
+    ba.cross_singleton(bb.count())
+        .map(q!(|(x, c)| (x, c as u32)))
+        .all_ticks()
+        .embedded_output("out");
+}
+
+pub fn t_fold_keyed<'a>(a: S<'a, KV>) {
+    b1(a).1
+        .into_keyed()
+        .fold(q!(|| 1u32), q!(|acc, v| *acc = (*acc * 2 + v) % 1009))
+        .entries()
+        .all_ticks()
+        .assume_ordering::<TotalOrder>(nondet!(/** observation only */))
+        .embedded_output("out");
+}
+
+pub fn t_reduce_keyed<'a>(a: S<'a, KV>) {
+    b1(a).1
+        .into_keyed()
+        .reduce(q!(|acc, v| *acc = (*acc * 3 + v) % 1009))
+        .entries()
+        .all_ticks()
+        .assume_ordering::<TotalOrder>(nondet!(/** observation only */))
+        .embedded_output("out");
+}
+
+pub fn t_defer<'a>(a: S<'a, u32>) {
+    b1(a).1.defer_tick().all_ticks().embedded_output("out");
+}
+
+pub fn t_defer_chain<'a>(a: S<'a, u32>, b: S<'a, u32>) {
+    let (ba, bb) = b2(a, b);
+    ba.map(q!(|x| x * 2))
+        .chain(bb.defer_tick().defer_tick())
+        .all_ticks()
+        .embedded_output("out");
+}
+
+pub fn t_defer_count<'a>(a: S<'a, u32>) {
+    b1(a).1
+        .filter(q!(|x| *x != 0))
+        .defer_tick()
+        .count()
+        .all_ticks()
+        .embedded_output("out");
+}
+
+pub fn t_sort_enumerate_fold<'a>(a: S<'a, u32>) {
+    b1(a).1
+        .unique()
+        .sort()
+        .enumerate()
+        .map(q!(|(i, x)| (i as u32 + 1) * x))
+        .fold(q!(|| 0u32), q!(|acc, x| *acc += x))
+        .all_ticks()
+        .embedded_output("out");
+}
+
+/// a tick cycle: the running (deduplicated, sorted) set of everything seen so far, carried from
+/// one tick to the next through `complete_next_tick`
+pub fn t_cycle<'a>(a: S<'a, u32>) {
+    let (tick, ba) = b1(a);
+    let (carry_complete, carry) = tick.cycle::<TS<'a, u32>, _>();
+    let all = carry.chain(ba).unique().sort();
+    carry_complete.complete_next_tick(all.clone());
+    all.all_ticks().embedded_output("out");
+}
